@@ -1,1 +1,5 @@
 import SmtpV.Props.C10
+#print axioms SmtpV.Props.C10.C10_refused_unless_available
+#print axioms SmtpV.Props.C10.startTLS_success
+#print axioms SmtpV.Props.C10.C10_server_fresh
+#print axioms SmtpV.Props.C10.C10_no_plaintext_in_tls
